@@ -73,12 +73,14 @@ Definition class_of {A} (r : res A) : N :=
               VN outcome; projection]                  body decoder called directly
         | VL [VN 1; VN version; VB stream; VN outcome; projection; VB unread]
                                                        header + body as ReadFixedHeader/ReadPacket
-   outcome: 0 = ok (projection = decoded packet), 1 = error, 2 = panic (recovered by the harness).
-   Specification: the outcome is never a panic.  Model: same class and, when ok, same fields. *)
+   outcome: 0 = ok (projection = decoded packet), 1 = error, 2 = panic (recovered by the harness),
+   3 = the decoder did not return within the harness' time budget (watched child process).
+   Specification: the outcome is never a panic and the decoder terminates.  Model: same class and, when ok, same fields. *)
 
 Definition total_verdict (tg : bytes) (nontriv : bool) (outcome : N) (proj : val)
            (m : res val) : val :=
   if outcome =? 2 then verdict 1 (tg ++ tag "-panic") nontriv [VN (class_of m)]
+  else if outcome =? 3 then verdict 1 (tg ++ tag "-hang") nontriv [VN (class_of m)]
   else if negb (class_of m =? outcome) then verdict 2 tg nontriv [VN (class_of m)]
   else match m with
        | Ok mv => if beq_val mv proj then verdict 0 (tg ++ tag "-ok") nontriv []
